@@ -302,6 +302,14 @@ func init() {
 						msgs = append(msgs, m)
 					}
 				}
+				// a declared length far above the text held: the fill is as long as the difference (129 .. 9979 blanks)
+				for _, al := range []int{149, 300, 1100, 2068, 2069, 2500, 4200, 9000, 9999} {
+					m := base.Clone()
+					m.Tags["UnstructuredAddenda"] = tt.New(tt.Marker(p), []string{fmt.Sprintf("%04d", al), "Twenty characters ab"})
+					if m.Validate() == "ok" {
+						msgs = append(msgs, m)
+					}
+				}
 			}
 		}
 		// sparse tails: of the last elements of a tag only one is kept (optional trailing blocks, early returns);
